@@ -4,9 +4,13 @@ Exact rational arithmetic; `alpha` is read from the source (4/5).  Quantifiers: 
 rate > 0, every history of consume calls (amounts, tokens, clock readings), every placement of
 a transfer failure in a stream's wait loop.
 Proved: the local laws (admission bound, no delay below the limit, the wait is the queue, one
-wait, an abandoned waiter leaves the queue and raises).  The interval bound of the statement
-(`1.25·max·T + burst` for mixed traffic) is not proved; the explorer measures windowed byte
-counts of the real classes in virtual time (1–8 streams, adversarial think times, late wake-ups).
+wait, an abandoned waiter leaves the queue and raises); first-attempt traffic moves at most
+`(1/α)·max·T` in every interleaving with waiting traffic (`window_first_attempts`); waiting traffic
+is served no faster than a FIFO server of rate `max` (`fifo_lower_bound`, `vf_ge_sum`).
+Disproved: the statement's single bound `1.25·max·T + burst` for *all* traffic together —
+`smoothing_allowance_exceeded` gives, for every burst allowance, a history of one saturated and one
+paced stream that moves 1.4·max·T (finding D17, replayed on the real classes by the check).  What
+the limiter guarantees is the sum of the two separate bounds.
 -/
 import S3V.Model.Bandwidth
 import Mathlib.Tactic.Linarith
@@ -14,6 +18,7 @@ import Mathlib.Tactic.FieldSimp
 import Mathlib.Tactic.Positivity
 import Mathlib.Tactic.NormNum
 import Mathlib.Tactic.Ring
+import Mathlib.Algebra.Order.Archimedean.Basic
 
 namespace S3V.C13
 open S3V.Bandwidth
@@ -573,5 +578,179 @@ theorem vf_ge_sum : ∀ (l : List Tok), l ≠ [] → (∀ u ∈ l, 0 ≤ u.ttc) 
     have := le_max_right t.r (vf (u :: rest))
     linarith
 
+
+
+/-- a step of `consume` never moves the tracker's clock reading backwards and keeps the limit -/
+theorem consume_last_mono (b : Bucket) (amt tok : Nat) (now t0 : Rat) (hl : b.last = some t0) :
+    ∃ t1, (consume b amt tok now).1.last = some t1 ∧ t0 ≤ t1 ∧ (consume b amt tok now).1.maxRate = b.maxRate := by
+  unfold consume
+  split
+  · -- scheduled: record (unschedule ..)
+    have hl' : (unschedule b tok).last = some t0 := by simp [unschedule, hl]
+    unfold record
+    simp only [hl']
+    by_cases hd : now - t0 ≤ 0
+    · simp only [hd, if_true]; exact ⟨t0, hl', le_refl _, by simp [unschedule]⟩
+    · simp only [hd, if_false]; exact ⟨now, rfl, by linarith [not_le.mp hd], by simp [unschedule]⟩
+  · split
+    · exact ⟨t0, hl, le_refl _, rfl⟩
+    · unfold record
+      simp only [hl]
+      by_cases hd : now - t0 ≤ 0
+      · simp only [hd, if_true]; exact ⟨t0, hl, le_refl _, trivial⟩
+      · simp only [hd, if_false]; exact ⟨now, rfl, by linarith [not_le.mp hd], trivial⟩
+
+/-- bytes granted on first attempts (to reads that had not been told to wait) during a run -/
+def firstBytes (b : Bucket) : List (Nat × Nat × Rat) → Nat
+  | [] => 0
+  | (amt, tok, now) :: rest =>
+    (if isScheduled b tok = false ∧ (consume b amt tok now).2 = .granted then amt else 0)
+      + firstBytes (consume b amt tok now).1 rest
+
+/-- **First-attempt traffic keeps within the smoothing allowance whatever the waiting traffic does.**
+In every run of consume calls — refusals, grants to reads that waited and first-attempt grants in
+any interleaving, any clock readings — the bytes granted on first attempts are at most
+`(1/α)·max·(t₁ − t₀)`, `t₀`/`t₁` the tracker's clock readings before and after the run. -/
+theorem window_first_attempts (evs : List (Nat × Nat × Rat)) (b : Bucket) (t0 : Rat)
+    (hlast : b.last = some t0) (hr : RateNonneg b) (hm : 0 ≤ b.maxRate) :
+    ∃ t1, (runConsumes b evs).1.last = some t1 ∧ t0 ≤ t1 ∧
+      ((firstBytes b evs : Nat) : Rat) ≤ (1 / alpha) * b.maxRate * (t1 - t0) := by
+  induction evs generalizing b t0 with
+  | nil => exact ⟨t0, by simpa [runConsumes] using hlast, le_refl _, by simp [firstBytes]⟩
+  | cons e rest ih =>
+    obtain ⟨amt, tok, now⟩ := e
+    obtain ⟨tm, hl1, hle, hm1⟩ := consume_last_mono b amt tok now t0 hlast
+    have hr1 : RateNonneg (consume b amt tok now).1 := rate_nonneg_consume b amt tok now hr
+    obtain ⟨t1, h1, h2, h3⟩ := ih (consume b amt tok now).1 tm hl1 hr1 (by rw [hm1]; exact hm)
+    rw [hm1] at h3
+    refine ⟨t1, by simpa [runConsumes] using h1, le_trans hle h2, ?_⟩
+    have ha : (0:Rat) < 1 / alpha := by rw [alpha_val]; norm_num
+    simp only [firstBytes, Nat.cast_add]
+    by_cases hg : isScheduled b tok = false ∧ (consume b amt tok now).2 = .granted
+    · rw [if_pos hg]
+      have hb := admit_bound b amt tok now t0 hlast hr hg.1 hg.2
+      have heq := consume_unsched_granted b amt tok now hg.1 hg.2
+      have hrl := record_last b amt now t0 hlast hb.1
+      have : tm = now := by
+        rw [heq, hrl.1] at hl1; exact (Option.some.inj hl1).symm
+      subst this
+      have : (1 / alpha) * b.maxRate * (t1 - t0) = (1 / alpha) * b.maxRate * (tm - t0) + (1 / alpha) * b.maxRate * (t1 - tm) := by ring
+      rw [this]; linarith [hb.2]
+    · rw [if_neg hg]
+      have hmono : (1 / alpha) * b.maxRate * (t1 - tm) ≤ (1 / alpha) * b.maxRate * (t1 - t0) := by
+        apply mul_le_mul_of_nonneg_left (by linarith)
+        exact mul_nonneg (le_of_lt ha) hm
+      simp only [Nat.cast_zero, zero_add]
+      linarith
+
+
+/-! #### the statement's `1.25·max·T + burst` is false for mixed traffic (finding D17) -/
+
+/-- bytes granted during a run -/
+def grantedBytes (b : Bucket) : List (Nat × Nat × Rat) → Nat
+  | [] => 0
+  | (amt, tok, now) :: rest =>
+    (if (consume b amt tok now).2 = .granted then amt else 0) + grantedBytes (consume b amt tok now).1 rest
+
+/-- limit 10 bytes/s; the tracker read `k` at the last grant, nothing waits -/
+def steady (c k : Rat) : Bucket := { maxRate := 10, last := some k, rate := .fin c, sched := [], totalWait := 0 }
+
+/-- one second of the mix: stream 1 (saturated, 10-byte reads) asks again right after its grant and
+is told to wait 1 s; stream 2 (4-byte reads, one every second) is granted on its first attempt half
+a second later; stream 1 comes back after exactly the wait it was told -/
+def mixPeriod (k : Rat) : List (Nat × Nat × Rat) := [(10, 1, k), (4, 2, k + 1 / 2), (10, 1, k + 1)]
+
+theorem mix_period (c k : Rat) (_h0 : 0 ≤ c) (h18 : c ≤ 18) :
+    (runConsumes (steady c k) (mixPeriod k)).1 = steady (432 / 25 + c / 25) (k + 1) ∧
+    grantedBytes (steady c k) (mixPeriod k) = 14 := by
+  have e1 : consume (steady c k) 10 1 k =
+      ({ maxRate := 10, last := some k, rate := .fin c, sched := [⟨1, 1, 1⟩], totalWait := 1 }, .refused 1) := by
+    simp [consume, steady, isScheduled, projected, ema, newRate, exceeds]
+  have e2 : consume { maxRate := 10, last := some k, rate := .fin c, sched := [⟨1, 1, 1⟩], totalWait := 1 } 4 2 (k + 1 / 2) =
+      ({ maxRate := 10, last := some (k + 1 / 2), rate := .fin (32 / 5 + c / 5), sched := [⟨1, 1, 1⟩], totalWait := 1 }, .granted) := by
+    have hx : ¬ ((10 : Rat) < 4 / 5 * (4 * 2) + (1 - 4 / 5) * c) := by norm_num; linarith
+    have hv : (4 / 5 : Rat) * (4 * 2) + (1 - 4 / 5) * c = 32 / 5 + c / 5 := by ring
+    have h2 : ¬ ((2 : Rat) ≤ 0) := by norm_num
+    simp only [consume, isScheduled, projected, ema, newRate, exceeds, record, alpha_val]
+    norm_num
+    rw [if_neg (by linarith)]
+    congr 3; ring
+  have e3 : consume { maxRate := 10, last := some (k + 1 / 2), rate := .fin (32 / 5 + c / 5), sched := [⟨1, 1, 1⟩], totalWait := 1 } 10 1 (k + 1) =
+      (steady (432 / 25 + c / 25) (k + 1), .granted) := by
+    simp only [consume, isScheduled, unschedule, ttcOf, ema, newRate, record, alpha_val, steady]
+    norm_num
+    ring
+  simp only [mixPeriod, runConsumes, grantedBytes, e1, e2, e3]
+  simp
+
+def mixRun : Nat → Rat → List (Nat × Nat × Rat)
+  | 0, _ => []
+  | n + 1, k => mixPeriod k ++ mixRun n (k + 1)
+
+theorem runConsumes_append (b : Bucket) (l1 l2 : List (Nat × Nat × Rat)) :
+    (runConsumes b (l1 ++ l2)).1 = (runConsumes (runConsumes b l1).1 l2).1 := by
+  induction l1 generalizing b with
+  | nil => simp [runConsumes]
+  | cons e rest ih => obtain ⟨a, t, n⟩ := e; simp [runConsumes, ih]
+
+theorem grantedBytes_append (b : Bucket) (l1 l2 : List (Nat × Nat × Rat)) :
+    grantedBytes b (l1 ++ l2) = grantedBytes b l1 + grantedBytes (runConsumes b l1).1 l2 := by
+  induction l1 generalizing b with
+  | nil => simp [runConsumes, grantedBytes]
+  | cons e rest ih => obtain ⟨a, t, n⟩ := e; simp [runConsumes, grantedBytes, ih, Nat.add_assoc]
+
+theorem mix_run (n : Nat) (c k : Rat) (h0 : 0 ≤ c) (h18 : c ≤ 18) :
+    (∃ c', 0 ≤ c' ∧ c' ≤ 18 ∧ (runConsumes (steady c k) (mixRun n k)).1 = steady c' (k + n)) ∧
+    grantedBytes (steady c k) (mixRun n k) = 14 * n := by
+  induction n generalizing c k with
+  | zero => exact ⟨⟨c, h0, h18, by simp [mixRun, runConsumes]⟩, by simp [mixRun, grantedBytes]⟩
+  | succ n ih =>
+    obtain ⟨hp1, hp2⟩ := mix_period c k h0 h18
+    obtain ⟨⟨c', hc0, hc18, hrun⟩, hg⟩ := ih (432 / 25 + c / 25) (k + 1) (by linarith) (by linarith)
+    refine ⟨⟨c', hc0, hc18, ?_⟩, ?_⟩
+    · simp only [mixRun, runConsumes_append, hp1, hrun]
+      congr 1; push_cast; ring
+    · simp only [mixRun, grantedBytes_append, hp1, hp2, hg]; ring
+
+/-- every clock reading of the mix lies in `[k, k + n]` -/
+theorem mix_run_times (n : Nat) (k : Rat) : ∀ e ∈ mixRun n k, k ≤ e.2.2 ∧ e.2.2 ≤ k + n := by
+  induction n generalizing k with
+  | zero => simp [mixRun]
+  | succ n ih =>
+    intro e he
+    simp only [mixRun, List.mem_append] at he
+    rcases he with he | he
+    · simp only [mixPeriod, List.mem_cons, List.mem_nil_iff, or_false] at he
+      rcases he with rfl | rfl | rfl <;> (push_cast; constructor <;> norm_num <;> linarith [(Nat.cast_nonneg n : (0:Rat) ≤ n)])
+    · have := ih (k + 1) e he
+      push_cast; constructor <;> linarith [this.1, this.2]
+
+/-- **The interval bound of the statement does not hold for mixed traffic (D17).**  For every burst
+allowance there is a history — one saturated stream with 10-byte reads that always sleeps exactly what it
+is told, and one stream asking for 4 bytes once a second, limit 10 bytes/s — all of whose clock
+readings lie in a window of length `T` and in which more than `(1/α)·max·T + burst` bytes are granted:
+the waiting stream is served at `max` and the first-attempt stream adds `0.4·max` on top, 1.4·max for
+as long as one likes.  (`window_first_attempts` and `fifo_lower_bound` bound the two kinds of traffic
+separately; their sum, not `1.25·max·T`, is what the limiter guarantees.) -/
+theorem smoothing_allowance_exceeded (burst : Rat) :
+    ∃ (evs : List (Nat × Nat × Rat)) (T : Rat), 0 < T ∧ (∀ e ∈ evs, 0 ≤ e.2.2 ∧ e.2.2 ≤ T) ∧
+      (1 / alpha) * (steady 0 0).maxRate * T + burst < (grantedBytes (steady 0 0) evs : Nat) := by
+  obtain ⟨n, hn⟩ := exists_nat_gt (burst : Rat)
+  refine ⟨mixRun (n + 1) 0, ((n + 1 : Nat) : Rat), by positivity, ?_, ?_⟩
+  · intro e he
+    have := mix_run_times (n + 1) 0 e he
+    constructor <;> linarith [this.1, this.2]
+  · rw [(mix_run (n + 1) 0 0 (le_refl _) (by norm_num)).2, alpha_val]
+    simp only [steady]; push_cast
+    linarith
+
+
+/-- non-vacuity: the bound of `window_first_attempts` is met by a run that mixes all three outcomes
+(a refusal, a first-attempt grant, a grant to the read that waited), and the first-attempt bytes are
+what the witness of `smoothing_allowance_exceeded` adds on top of the waiting traffic -/
+example : firstBytes (steady 0 0) (mixPeriod 0) = 4 ∧ grantedBytes (steady 0 0) (mixPeriod 0) = 14 ∧
+    (steady 0 0).last = some 0 ∧ RateNonneg (steady 0 0) := by
+  refine ⟨?_, (mix_period 0 0 (le_refl _) (by norm_num)).2, rfl, by simp [RateNonneg, steady]⟩
+  decide +kernel
 
 end S3V.C13
